@@ -105,3 +105,23 @@ Theorem C09_checked_reinsertion_is_identity : forall terms ops hs s k a t,
   (forall a' s', add_expr t s = Ok (a', s') -> s' = s /\ eg_eq s' a a' = Ok true).
 Proof. exact reinsertion_checked. Qed.
 Print Assumptions C09_checked_reinsertion_is_identity.
+
+(* third session, second round (EGraph/RepReach*.v, thirteen files; OpsPreFacts.v; StaticFacts.v): the five per-operation
+   hypotheses are PROVED (new invariants `covd`: every class has a recorded source coherent with it, `synsep`), so for EVERY
+   history of insertions and unions over statically well-formed terms: every handle still represents its term in the
+   final state; re-inserting any earlier term at any later point creates NOTHING (state unchanged) and returns an
+   invocation equal to the original handle; the recursive lookup finds every inserted term in every later state. *)
+From SE Require Import EGraph.OpsPreFacts EGraph.StaticFacts.
+Theorem C09_handles_stay_represented_for_all_histories : forall terms ops hs s, List.Forall term_static terms ->
+  run_ops terms ops [] empty_egraph = Ok (hs, s) ->
+  forall k a, List.In (k, a) (List.combine (add_idx ops) hs) -> exists t, nth_opt terms k = Some t /\ rep s t a.
+Proof. exact handles_rep_static. Qed.
+Print Assumptions C09_handles_stay_represented_for_all_histories.
+
+Theorem C09_reinsertion_is_identity_for_all_histories : forall terms ops hs s k a t, List.Forall term_static terms ->
+  run_ops terms ops [] empty_egraph = Ok (hs, s) ->
+  List.In (k, a) (List.combine (add_idx ops) hs) -> nth_opt terms k = Some t ->
+  (exists x, lookup_rec s t = Ok (Some x) /\ eg_eq s x a = Ok true) /\
+  (forall a' s', add_expr t s = Ok (a', s') -> s' = s /\ eg_eq s' a a' = Ok true).
+Proof. exact reinsertion_is_identity_static. Qed.
+Print Assumptions C09_reinsertion_is_identity_for_all_histories.
